@@ -267,6 +267,19 @@ class ShapeDomain(Domain):
         if name in ("builtins.eval", "ast.literal_eval") and args:
             return args[0]
         # string-preserving
+        if name == "?." + short and short in ("strip", "rstrip", "lstrip") and recv is not None and call.args \
+                and isinstance(call.args[0], ast.Constant) and isinstance(call.args[0].value, str) and "/" in call.args[0].value:
+            # stripping slashes: what is left of `/` is the empty string, of `/a/` (lstrip) `a/` - accepted text, but no
+            # longer known to start with a slash (root + '' + '.abstract' is a neighbour of the root)
+            out = set()
+            for alt in recv:
+                if alt and alt[0][0] == "sel":
+                    out.add((("fac",),) + tuple(alt[1:]))
+                elif alt and alt[0][0] == "c" and alt[0][1].startswith("/") and len(alt) == 1:
+                    out.add((("c", alt[0][1].strip("/") if short != "rstrip" else alt[0][1].rstrip("/")),))
+                else:
+                    out.add(alt)
+            return frozenset(out)
         if name == "?." + short and short in self.STR_KEEP and recv is not None:
             return recv
         if name in ("os.fsencode", "os.fsdecode", "os.fspath", "builtins.str", "builtins.bytes", "typing.cast") and args:
